@@ -6,13 +6,17 @@
    keys, flatten_name_parts (lines 1040-1055) and Name::new (feel/src/names.rs lines 100-114) with the `str::trim` it applies
    to every part (char::is_whitespace = the Unicode property White_Space, which is NOT the white space of the lexer: U+180E,
    U+200B and U+FEFF are white space for the lexer only).  C06/Lexer.v takes name_new, collect and mem from here.
+   is_name_start is is_name_start_char after the repair "a white space character is never a name character" (U+1680, U+180E, U+FEFF,
+   inside the name character ranges of the grammar, are white space only); the character classes, the collector and the token
+   stream of the code before that repair are kept as is_name_start_orig, is_name_part_orig, collect_orig, lex_name_chars_orig,
+   lex_all_chars_orig at the end of the file (witnesses C10_*_orig_refuted).
    Characters are Unicode scalar values (N); positions are indices into the input (nat).  No proofs here. *)
 From Coq Require Import List NArith Bool Arith.
 Import ListNotations.
 
 Definition str := list N.
 
-(* ------------------------------------------------------------------ character classes (lexer.rs 976-1012) *)
+(* ------------------------------------------------------------------ character classes (lexer.rs 1046-1083) *)
 
 Definition between (lo hi c : N) : bool := (lo <=? c)%N && (c <=? hi)%N.
 
@@ -21,20 +25,28 @@ Definition is_add_sym (c : N) : bool :=   (* . / - ' + * *)
 
 Definition is_digit (c : N) : bool := between 48 57 c.
 
-Definition is_name_start (c : N) : bool :=
-  (c =? 63)%N || between 65 90 c || (c =? 95)%N || between 97 122 c ||
-  between 192 214 c || between 216 246 c || between 248 767 c || between 880 893 c || between 895 8191 c ||
-  between 8204 8205 c || between 8304 8591 c || between 11264 12271 c || between 12289 55295 c ||
-  between 63744 64975 c || between 65008 65533 c || between 65536 983039 c.
-
-Definition is_name_part (c : N) : bool :=
-  is_name_start c || is_digit c || (c =? 183)%N || between 768 879 c || between 8255 8256 c.
-
 Definition is_vspace (c : N) : bool := between 10 13 c.
 
 Definition is_ws (c : N) : bool :=
   is_vspace c || (c =? 9)%N || (c =? 32)%N || (c =? 133)%N || (c =? 160)%N || (c =? 5760)%N || (c =? 6158)%N ||
   between 8192 8203 c || (c =? 8232)%N || (c =? 8233)%N || (c =? 8239)%N || (c =? 8287)%N || (c =? 12288)%N || (c =? 65279)%N.
+
+(* the ranges of grammar rule 28, as is_name_start_char was before the repair: U+1680, U+180E (inside 037F-1FFF) and U+FEFF (inside
+   FDF0-FFFD) are in them and are white space for is_whitespace as well *)
+Definition is_name_start_orig (c : N) : bool :=
+  (c =? 63)%N || between 65 90 c || (c =? 95)%N || between 97 122 c ||
+  between 192 214 c || between 216 246 c || between 248 767 c || between 880 893 c || between 895 8191 c ||
+  between 8204 8205 c || between 8304 8591 c || between 11264 12271 c || between 12289 55295 c ||
+  between 63744 64975 c || between 65008 65533 c || between 65536 983039 c.
+
+Definition is_name_part_orig (c : N) : bool :=
+  is_name_start_orig c || is_digit c || (c =? 183)%N || between 768 879 c || between 8255 8256 c.
+
+(* is_name_start_char now (`!is_whitespace(ch) && matches!(..)`): a white space character is never a name character *)
+Definition is_name_start (c : N) : bool := is_name_start_orig c && negb (is_ws c).
+
+Definition is_name_part (c : N) : bool :=
+  is_name_start c || is_digit c || (c =? 183)%N || between 768 879 c || between 8255 8256 c.
 
 (* ------------------------------------------------------------------ the part collector *)
 
@@ -235,3 +247,75 @@ Fixpoint tokens (fuel : nat) (keys : list str) (inp : str) (pos : nat) : option 
   end.
 
 Definition lex_all (keys : list str) (inp : str) : option (list tok) := tokens (S (length inp)) keys inp 0.
+
+(* ------------------------------------------------------------------ the collector and the token with the character classes of the code before
+   the repair of is_name_start_char (U+1680, U+180E, U+FEFF are name characters): the same machine over is_name_part_orig *)
+
+Definition step_orig (inp : str) (s : mstate) (pos : nat) (a : acc) : option (mstate * nat * acc) :=
+  match s with
+  | S1 | S3 =>
+    if next_is is_name_part_orig inp pos
+    then Some (s, S pos, {| a_parts := a_parts a; a_cps := a_cps a; a_cur := ch inp (S pos) :: a_cur a |})
+    else Some (S2, pos, {| a_parts := rev (a_cur a) :: a_parts a; a_cps := pos :: a_cps a; a_cur := [] |})
+  | S2 =>
+    if next_is is_name_part_orig inp pos then Some (S3, pos, a)
+    else if next_is is_add_sym inp pos then Some (S4, pos, a)
+    else if next_is is_ws inp pos then Some (S5, pos, a)
+    else None
+  | S4 =>
+    if next_is is_add_sym inp pos
+    then Some (S4, S pos, {| a_parts := [ch inp (S pos)] :: a_parts a; a_cps := S pos :: a_cps a; a_cur := [] |})
+    else Some (S2, pos, a)
+  | S5 =>
+    if next_is is_ws inp pos then Some (S5, S pos, a) else Some (S2, pos, a)
+  end.
+
+Fixpoint machine_orig (fuel : nat) (inp : str) (s : mstate) (pos : nat) (a : acc) : mstate * nat * acc :=
+  match fuel with
+  | O => (s, pos, a)
+  | S f => match step_orig inp s pos a with
+           | Some (s', pos', a') => machine_orig f inp s' pos' a'
+           | None => (s, pos, a)
+           end
+  end.
+
+Definition collect_orig (inp : str) (pos : nat) : list str * list nat * nat :=
+  let '(_, p, a) := machine_orig (4 * S (length inp)) inp S1 pos {| a_parts := []; a_cps := []; a_cur := [ch inp pos] |} in
+  (rev (a_parts a), rev (a_cps a), S p).
+
+(* consume_name (guarded `in` branch) over the original character classes *)
+Definition lex_name_chars_orig (keys : list str) (till_in : bool) (inp : str) (pos : nat) : lexres :=
+  let '(parts, cps, endpos) := collect_orig inp pos in
+  let regular :=
+    match search keys parts (length parts) with
+    | Some pc => LName (name_new (firstn pc parts)) (S (nth (pc - 1) cps 0))
+    | None => LName (name_new parts) endpos
+    end in
+  if match parts with p :: _ => str_eqb p str_item | [] => false end then LName str_item (S (nth 0 cps 0))
+  else
+    match (if till_in then index_of str_in parts 0 else None) with
+    | Some (S i) => LName (name_new (firstn (S i) parts)) (S (nth i cps 0))
+    | _ => regular
+    end.
+
+Fixpoint tokens_chars_orig (fuel : nat) (keys : list str) (inp : str) (pos : nat) : option (list tok) :=
+  match fuel with
+  | O => Some []
+  | S f =>
+    match nth_error inp pos with
+    | None => Some []
+    | Some c =>
+      if is_ws c then tokens_chars_orig f keys inp (S pos)
+      else if is_digit c then
+        let '(d, p) := digits (length inp) inp pos [] in
+        match tokens_chars_orig f keys inp p with Some r => Some (KNum d :: r) | None => None end
+      else if is_name_start_orig c then
+        match lex_name_chars_orig keys false inp pos with
+        | LName n p => match tokens_chars_orig f keys inp p with Some r => Some (KName n :: r) | None => None end
+        | LCrash => None
+        end
+      else match tokens_chars_orig f keys inp (S pos) with Some r => Some (KSym c :: r) | None => None end
+    end
+  end.
+
+Definition lex_all_chars_orig (keys : list str) (inp : str) : option (list tok) := tokens_chars_orig (S (length inp)) keys inp 0.
